@@ -1,6 +1,7 @@
 package eng
 
 import (
+	"strings"
 	"fmt"
 	"math/rand"
 
@@ -61,6 +62,12 @@ func runLedger(j Job) *Result {
 			o.Steps = 150 + r.Intn(150)
 		}
 		o.Profile = j.Variant
+		if j.Variant != "invalid" && i%3 == 2 {
+			// every third history runs one of the other profiles: each property's monitor also sees the states that
+			// the slash / exit / keys / power / queues workloads reach
+			all := []string{"", "exit", "slash", "keys", "power", "queues"}
+			o.Profile = all[(i/3)%len(all)]
+		}
 		w, err := ops.BuildLedgerWorld(j.Seed, i, o)
 		if err != nil {
 			res.Notes = append(res.Notes, "build: "+err.Error())
@@ -141,7 +148,11 @@ func runLedger(j Job) *Result {
 		c06.Merge(m6.S)
 		c16.Merge(m16.S)
 		c09.Merge(m9.S)
-		if w.ConsensusHalt != "" {
+		if w.ConsensusHalt != "" && strings.Contains(w.ConsensusHalt, "would result in empty set") {
+			// no operator is eligible any more: the list that removes everybody is exactly what C06's statement asks for;
+			// that consensus cannot run with an empty set is judged by C11 (recorded finding)
+			c06.Eval("empty-eligible-set-not-judged-here")
+		} else if w.ConsensusHalt != "" {
 			c06.Violate("cometbft-rejects-update-list", "", hist, len(w.Steps), "CometBFT validator-set validation refused the update list: %s", w.ConsensusHalt)
 		}
 	}
